@@ -14,4 +14,6 @@ MatchSigs(c) == {}
 StepSigs(c) == {}
 WalkSigs(c) == {}
 PersistSigs(c) == {}
+ExpectSigs(c) == {}
+GraphSigs(c) == {}
 =============================================================================
